@@ -130,3 +130,9 @@ mod tests {
         assert!(!is_valid(&s));
     }
 }
+
+#[cfg(noodles_verif)]
+#[doc(hidden)]
+pub fn __verif_write_name_length(dst: &mut Vec<u8>, name: Option<&BStr>) -> Result<(), EncodeError> {
+    write_length(dst, name)
+}
